@@ -10,7 +10,7 @@ VERIF = os.path.dirname(os.path.dirname(os.path.abspath(__file__)))
 COQ = os.path.join(VERIF, 'coq')
 OCAML = os.path.join(VERIF, 'ocaml')
 OUT = os.path.join(VERIF, 'out')
-EVID = os.path.join(VERIF, 'evidence')
+EVID = os.environ.get('KV_EVID') or os.path.join(VERIF, 'evidence')     # developer runs against scratch trees write elsewhere
 
 TRUSTED_BASE_COMMON = [
     'Coq 8.16.1 kernel (coqc), including its VM (vm_compute); no native_compute',
